@@ -330,6 +330,19 @@ def program_specs(tier, seed):
     nested = statements(1, 2, rnd, 1500 if tier == "thorough" else 150)[len(one):]
     for blk in nested:
         specs.append({"prog": DECL + blk + [["flush"]]})
+    # measurements into registers and array entries mixed in one subroutine; rotations on one qubit with a gate on another in between
+    # (operations that share scratch state inside the builder: M registers, the qubit register)
+    mixed = [
+        [["q", "qa"], ["m", "qa", ["newr", "ra"], True], ["m", "qa", FA0, True], ["m", "qa", ["newr", "rb"], False]],
+        [["q", "qa"], ["q", "qb"], ["m", "qa", ["newr", "ra"], False], ["m", "qb", FA1, True], ["g", "qb", "X"], ["m", "qb", ["newr", "rb"], False]],
+        [["q", "qa"], ["q", "qb"], ["rot", "qa", "X", 3, 2], ["g", "qb", "H"], ["rot", "qa", "Z", 5, 3], ["rot", "qa", "Y", 1, 1],
+         ["m", "qa", FA0, False], ["m", "qb", FA1, False]],
+        [["q", "qa"], ["q", "qb"], ["rot", "qb", "Y", 7, 4], ["rot", "qa", "Y", 7, 4], ["g", "qa", "Z"], ["rot", "qb", "X", 2, 2],
+         ["m", "qa", FA0, False], ["m", "qb", FA1, False]],
+    ]
+    for blk in mixed:
+        specs.append({"prog": DECL + blk + [["flush"]]})
+        specs.append({"prog": DECL + [["flush"]] + blk + [["flush"]]})
     # three blocks, flushes anywhere (a handle created in the first subroutine and used in the third, with other work in between)
     b3 = atoms(3)
     for _ in range(2000 if tier == "thorough" else 120):
